@@ -12,7 +12,9 @@ TraceLog == ndJsonDeserialize(IOEnv.TRACE)
 ResetTo(ev) ==
   /\ data' = ev.arg.data /\ data2' = ev.arg.data2 /\ lo' = ev.arg.lo /\ hi' = ev.arg.hi /\ ranged' = (ev.arg.ranged = 1)
   /\ kind' = ev.arg.kind
-  /\ Len(ev.arg.kind) \in 1..2 /\ \A d \in 1..Len(ev.arg.kind) : ev.arg.kind[d] \in {"lin+", "lin-", "log"}
+  /\ Len(ev.arg.kind) \in 1..2 /\ \A d \in 1..Len(ev.arg.kind) : ev.arg.kind[d] \in {"lin+", "lin-", "log", "log2"}
+  /\ lim2' = <<ev.arg.lmin2, ev.arg.lmax2>>
+  /\ LimitsOK'                       \* the visible range is the given limit rounded outward to whole decades
   /\ pos' = 0 /\ parts' = <<>>
   /\ ev.arg.lim = Limit
   /\ obs' = [a |-> "init", arg |-> [x |-> 0], exp |-> [x |-> 0]]
@@ -56,7 +58,7 @@ Step(ev) ==
 
 TraceInit ==
   /\ l = 1 /\ data = <<>> /\ data2 = <<>> /\ lo = 0 /\ hi = 0 /\ ranged = TRUE /\ pos = 0 /\ parts = <<>>
-  /\ kind = <<"lin+">>
+  /\ kind = <<"lin+">> /\ lim2 = <<0, 0>>
   /\ obs = [a |-> "none", arg |-> [x |-> 0], exp |-> [x |-> 0]]
 
 TraceNext ==
